@@ -77,9 +77,11 @@ func NewCrdIPAM(fipClient crd_clientset.Interface, informer crdInformer.Floating
 // AllocateSpecificIP allocate pod a specific IP.
 func (ci *crdIpam) AllocateSpecificIP(key string, ip net.IP, attr Attr) error {
 	ipStr := ip.String()
-	ci.cacheLock.RLock()
+	// hold the cache lock from the lookup to the update of the caches like the other allocate functions do: a
+	// configuration reload in between would replace the caches and the ip may no longer be configured then
+	ci.cacheLock.Lock()
+	defer ci.cacheLock.Unlock()
 	spec, find := ci.unallocatedFIPs[ipStr]
-	ci.cacheLock.RUnlock()
 	if !find {
 		return fmt.Errorf("failed to find floating ip by %s in cache", ipStr)
 	}
@@ -88,9 +90,7 @@ func (ci *crdIpam) AllocateSpecificIP(key string, ip net.IP, attr Attr) error {
 		glog.Errorf("failed to create floatingIP %s: %v", ipStr, err)
 		return err
 	}
-	ci.cacheLock.Lock()
 	ci.syncCacheAfterCreate(allocated)
-	ci.cacheLock.Unlock()
 	return nil
 }
 
